@@ -64,6 +64,14 @@ func InitStorage() error {
 				return err
 			}
 
+			// drop a record left incomplete by a crash so that later records
+			// are not appended behind it
+			if f, ok := wal.reader.(*os.File); ok {
+				if err := f.Truncate(wal.validLen); err != nil {
+					return err
+				}
+			}
+
 			if err := batch.replay(fs); err != nil {
 				return fmt.Errorf("WAL replay error: %w", err)
 			}
@@ -163,6 +171,8 @@ type readWriteSyncCloser interface {
 type wal struct {
 	reader    readWriteSyncCloser
 	forceSync bool
+	// validLen is the length of the prefix of complete records found by read
+	validLen int64
 }
 
 func (w *wal) close() error {
@@ -174,8 +184,12 @@ func (w *wal) read() (WALBatch, error) {
 	reader := bufio.NewReader(w.reader)
 	tupleLenBuf := make([]byte, 4)
 
+	var validLen int64
+	defer func() { w.validLen = validLen }()
+
 	for {
-		if n, err := io.ReadFull(reader, tupleLenBuf); err == io.EOF {
+		if n, err := io.ReadFull(reader, tupleLenBuf); err == io.EOF || err == io.ErrUnexpectedEOF {
+			// end of log, or a record length cut short by a crash
 			break
 		} else if err != nil {
 			return ret, err
@@ -189,7 +203,10 @@ func (w *wal) read() (WALBatch, error) {
 		}
 
 		tupleBuf := make([]byte, tupleLen)
-		if n, err := io.ReadFull(reader, tupleBuf); err != nil {
+		if n, err := io.ReadFull(reader, tupleBuf); err == io.EOF || err == io.ErrUnexpectedEOF {
+			// record body cut short by a crash
+			break
+		} else if err != nil {
 			return ret, err
 		} else if n != tupleLen {
 			panic("bytes read differs from expected buffer length")
@@ -200,6 +217,7 @@ func (w *wal) read() (WALBatch, error) {
 			return ret, err
 		}
 		ret = append(ret, w)
+		validLen += int64(len(tupleLenBuf) + tupleLen)
 	}
 
 	return ret, nil
